@@ -136,7 +136,7 @@ def check_expr(expr, only=None, vals_list=None):
         for mode in ("sync", "async", "mixed"):
             fc = {k: (v, None) for k, v in val.items()}
             env = I.Env(fc=fc, yielder=None if mode == "sync" else _no_yield,
-                        sync={("fc", k) for k in fc if I.is_sync_key("fc", k)} if mode == "mixed" else ())
+                        sync={("fc", k) for k in I.sync_subset(fc)} if mode == "mixed" else ())
             rr = I.try_call(lambda: I.run(I.format_constraint_evaluation(expr), env))
             n += 1
             if rr[0] == "exc":
@@ -174,7 +174,7 @@ def check_builtin(expr, text, val):
             return await I.format_constraint_evaluation(e)
 
         fc = {k: (v, None if v else f"msg {k}") for k, v in val.items()}
-        return I.try_call(lambda: I.run(go(), I.Env(fc=fc, yielder=_no_yield, sync={("fc", k) for k in fc if I.is_sync_key("fc", k)})))
+        return I.try_call(lambda: I.run(go(), I.Env(fc=fc, yielder=_no_yield, sync={("fc", k) for k in I.sync_subset(fc)})))
 
     full = dict(val)
     for k in keys:
